@@ -28,6 +28,7 @@
 package main
 
 import (
+	"os"
 	"time"
 
 	"verif/lib/run"
@@ -44,7 +45,7 @@ func main() {
 			"back-to-back case = 4-12 Put/Get/FindMissing operations through client+server and on a twin backend, with identical injected faults, zstd negotiated or not; " +
 			"distinct = (engine, compressor, reference defect class) for uploads, (compressor, size, offset, chunk size) for reads, entry-kind vectors for batch calls, (operation, result code, mode) for back-to-back; non-trivial = every case (each involves at least one protocol decision)",
 		Workers:     8,
-		CaseTimeout: 120 * time.Second,
+		CaseTimeout: 300 * time.Second, // the machine is shared; a hang is still caught by the dump test
 		Race:        true,
 		Floors: map[string]int64{
 			"write_valid":                           150,
@@ -89,9 +90,17 @@ func main() {
 	})
 }
 
+// only returns n, or 0 when the debugging aid C14_ONLY=<group> selects another group.
+func only(group string, n int) int {
+	if g := os.Getenv("C14_ONLY"); g != "" && g != group {
+		return 0
+	}
+	return n
+}
+
 func body(w *run.Worker) {
-	w.Cases("write_direct", w.N(3000, 70000), func(c *run.Case) { caseWriteDirect(c, w) })
-	w.Cases("read_direct", w.N(1600, 30000), func(c *run.Case) { caseReadDirect(c, w) })
+	w.Cases("write_direct", only("write_direct", w.N(2400, 30000)), func(c *run.Case) { caseWriteDirect(c, w) })
+	w.Cases("read_direct", only("read_direct", w.N(1200, 12000)), func(c *run.Case) { caseReadDirect(c, w) })
 	// Every offset of every small size: sizes are dealt round-robin to the workers.
 	maxSize := 31
 	if w.Thorough() {
@@ -99,7 +108,7 @@ func body(w *run.Worker) {
 	}
 	perWorker := (maxSize + 1 + w.Workers - 1) / w.Workers
 	complete := true
-	w.Cases("read_exhaustive", perWorker, func(c *run.Case) {
+	w.Cases("read_exhaustive", only("read_exhaustive", perWorker), func(c *run.Case) {
 		size := int(c.Index)*w.Workers + w.Index
 		if size > maxSize {
 			return
@@ -107,14 +116,14 @@ func body(w *run.Worker) {
 		caseReadExhaustive(c, w, size)
 	})
 	w.Exhaustive("read_offsets_of_small_objects", complete)
-	w.Cases("batch_direct", w.N(800, 16000), func(c *run.Case) { caseBatch(c, w, nil) })
-	w.Cases("batch_wire", w.N(160, 3000), func(c *run.Case) {
+	w.Cases("batch_direct", only("batch_direct", w.N(800, 10000)), func(c *run.Case) { caseBatch(c, w, nil) })
+	w.Cases("batch_wire", only("batch_wire", w.N(96, 1000)), func(c *run.Case) {
 		env := newWireEnv(c.Rng, true)
 		defer env.drain()
 		caseBatch(c, w, env)
 	})
-	w.Cases("write_wire", w.N(500, 10000), func(c *run.Case) { caseWriteWire(c, w) })
-	w.Cases("b2b", w.N(500, 10000), func(c *run.Case) { caseBackToBack(c, w) })
-	w.Cases("ac", w.N(160, 2400), func(c *run.Case) { caseActionCache(c, w) })
-	w.Cases("concurrent", w.N(64, 800), func(c *run.Case) { caseConcurrent(c, w) })
+	w.Cases("write_wire", only("write_wire", w.N(320, 3000)), func(c *run.Case) { caseWriteWire(c, w) })
+	w.Cases("b2b", only("b2b", w.N(240, 2400)), func(c *run.Case) { caseBackToBack(c, w) })
+	w.Cases("ac", only("ac", w.N(96, 800)), func(c *run.Case) { caseActionCache(c, w) })
+	w.Cases("concurrent", only("concurrent", w.N(16, 120)), func(c *run.Case) { caseConcurrent(c, w) })
 }
